@@ -6,8 +6,9 @@ structural necessary conditions of the two copies of the algorithm
 immutable.happiness_upload._compute_maximum_graph) and of their shared helpers
 (DESIGN.md section 5, C08)."""
 from sa.h import *
-from sa.rules.C07 import (Flow, body_skips, container_stores, enclosing_for, fact_gate, fresh_mutable, iter_node,
-                          loops_over, returned_name, sink_terms, unwrap, unwrap_view)
+from sa.rules.C07 import (Flow, PairRecord, body_skips, container_stores, creators_of, enclosing_for, escaping_stores2,
+                          fact_gate, fresh_mutable, fromkeys_shared, iter_node, loops_over, on_cycle, r9_alias,
+                          returned_name, shared_slots, sink_terms, unwrap, unwrap_view)
 
 EXPLANATION = (
     "Decided (structural, all paths), in BOTH copies of Edmonds-Karp: (1) derived-value freshness: after any store to "
@@ -21,17 +22,26 @@ EXPLANATION = (
     "the empty sink row last with sink = num_servers + num_shares + 1, servers_of_happiness sums flow_function[0][v] "
     "over range(1, num_servers + 1) with num_servers = len of the same server map, augmenting_path_for searches "
     "from vertex 0 to vertex len(graph) - 1, residual_network reverses exactly the saturated edges; (4) BFS "
-    "discipline: a vertex is enqueued only when WHITE, after it was coloured and given its predecessor. "
+    "discipline: a vertex is enqueued only when WHITE, after it was coloured and given its predecessor; (5) the graph is "
+    "built from a faithful inversion of the share map: in shares_by_server every iteration for (share, server) ends with "
+    "the share in ret[server] (CFG monitor over the recording steps, shared with C07.14), a server's set is replaced only "
+    "where the server is known to have none, no other pair is recorded, the result is returned after the last share; no "
+    "set object is put under two servers while the held sets are changed in place (object created outside the loop "
+    "that stores it and never re-bound on a way round that loop, dict.fromkeys(.., <mutable>)) - swept over happinessutil "
+    "and the Edmonds-Karp helpers. "
     "Deliberately not demanded (no effect on the value): the order of the edges inside the augmenting path, the residual "
     "capacity entries of the direction that is not a residual edge (cf = -1 / 0, never read), bfs distance and BLACK "
     "bookkeeping, how the per-vertex tables are spelled ([x for ..] or [x] * n). "
     "Undecided: that the flow found is maximum (termination and optimality of Edmonds-Karp), dict/set iteration order "
     "(the max-flow value is unique, so the result does not depend on it once 1-4 hold).")
 TECHNIQUE = ("static analysis: CFG x staleness monitor for the derived residual network (R2), normal-form agreement of "
-             "the update pair and of the vertex numbering (R5), edge-fact dominance in bfs")
+             "the update pair and of the vertex numbering (R5), edge-fact dominance in bfs, CFG x (recorded, "
+             "key-known-absent) monitor and loop-escape alias rule through the container (R9) for the inversion")
 
 HU = "immutable.happiness_upload"
 HZ = "util.happinessutil"
+HZ_MOD = "allmydata.util.happinessutil"
+HU_MOD = "allmydata.immutable.happiness_upload"
 COPIES = (HZ + ":servers_of_happiness", HU + ":_compute_maximum_graph")
 # re-iterable copies of an adjacency row (NOT iter(): a row is scanned once per residual_network call)
 ROW_COPIES = ("list", "tuple", "sorted", "set", "frozenset")
@@ -109,6 +119,30 @@ def _ek_anchor(fn):
     if len(ff) != 1:
         raise AnchorVanished("%s: flow updates on several tables %s" % (fn.qual, sorted(ff)))
     return cfg, rec, rg, rf, ff.pop(), ffs, upd
+
+
+def _inversion_loops(fn, sm):
+    """The nested loops of an inversion of the share map `sm` (share -> servers): (outer For, inner For, server variable,
+    share variable) for `for s, ps in sm.items(): for p in ps:` or `for s in sm: for p in sm[s]:`."""
+    found = []
+    for inner in [x for x in func_own_nodes(fn) if isinstance(x, ast.For)]:
+        if not isinstance(inner.target, ast.Name):
+            continue
+        for outer in enclosing_for(fn, inner):
+            base, view = unwrap_view(outer.iter)
+            if norm_plain(base) != sm:
+                continue
+            it = unwrap(inner.iter, tails=ROW_COPIES)
+            t = outer.target
+            if view == "items" and isinstance(t, (ast.Tuple, ast.List)) and len(t.elts) == 2 \
+                    and all(isinstance(e, ast.Name) for e in t.elts) and norm_plain(it) == t.elts[1].id:
+                found.append((outer, inner, inner.target.id, t.elts[0].id))
+            elif view in (None, "keys") and isinstance(t, ast.Name) and norm_plain(it) == "%s[%s]" % (sm, t.id):
+                found.append((outer, inner, inner.target.id, t.id))
+    if len(found) != 1:
+        raise AnchorVanished("%s: the loops `for share, servers in %s.items(): for server in servers:` (found %d)" % (
+            fn.qual, sm, len(found)))
+    return found[0]
 
 
 def run(ctx: Context):
@@ -378,21 +412,8 @@ def run(ctx: Context):
         SBM = first_positional_params(sb)[0]
         out = returned_name(sb)
         r.site(sb, None, "shares_by_server")
-        adds = [c for c in calls_in_func(sb, "add")]
-        okb = False
-        lps = [x for x in func_own_nodes(sb) if isinstance(x, ast.For)]
-        if len(adds) == 1 and len(lps) == 2:
-            outer = [l for l in lps if unwrap_view(l.iter)[1] == "items" and norm_plain(unwrap_view(l.iter)[0]) == SBM]
-            if outer and isinstance(outer[0].target, ast.Tuple) and len(outer[0].target.elts) == 2:
-                kshare, kpeers = [norm_plain(e) for e in outer[0].target.elts]
-                inner = [l for l in lps if l is not outer[0]][0]
-                pv = norm_plain(inner.target)
-                c = adds[0]
-                recv = c.func.value
-                okb = norm_plain(inner.iter) == kpeers and [norm_plain(a) for a in c.args] == [kshare] and (
-                    norm_plain(recv) in ("%s.setdefault(%s, set())" % (out, pv), "%s[%s]" % (out, pv)))
-        r.require(okb, sb, sb.loc(), "shares_by_server must invert the map: for each share and each of its servers, "
-                  "ret[server] gets the share")
+        # which pair each iteration stands for; that the pair is recorded (and nothing else is) is rule C08.5
+        _inversion_loops(sb, SBM)
 
         # ---- happinessutil._reindex
         rx = idx.func(HZ + ":_reindex")
@@ -765,6 +786,65 @@ def run(ctx: Context):
         pelt = _uniform_table(pinit, BG) if pinit is not None else None
         r.require(isinstance(pelt, ast.Constant) and pelt.value is None, bf, bf.loc(),
                   "the predecessor table must start as None for every vertex (augmenting_path_for tests the sink's entry)")
+
+    # ------------------------------------------------------------------ 5
+    with ctx.rule("C08.5", "R9", "the share map is inverted faithfully: for each share and each of its servers "
+                  "shares_by_server leaves the share in ret[server] on every way through the iteration, never replaces "
+                  "the set a server may already have, records no other pair; no set object is put under two keys while "
+                  "the held sets are changed in place (an object created outside the loop that stores it, "
+                  "dict.fromkeys(.., <mutable>)) - sweep of happinessutil and the Edmonds-Karp helpers", expected=2) as r:
+        sb = idx.func(HZ + ":shares_by_server")
+        SBM = first_positional_params(sb)[0]
+        out = returned_name(sb)
+        outer, inner, K, V = _inversion_loops(sb, SBM)
+        scfg = sb.cfg()
+        head = iter_node(scfg, inner)
+        r.site(sb, inner, "one (share, server) pair per iteration")
+        pr = PairRecord(sb, out, K, V, head=head)
+        r.count(len(scfg.nodes))
+        for c in pr.ops.values():
+            r.site(sb, c, "recording step")
+        for w in pr.unrecorded[:1]:
+            r.violation(sb, sb.loc(inner), "shares_by_server: an iteration for (%s, %s) can end without %s in %s[%s]: an edge of "
+                        "the server/share graph is lost and the happiness value can come out too low (path: %s)" % (
+                            V, K, V, out, K, w.brief()), w)
+        for (n, w, fresh) in pr.clobbers:
+            r.violation(sb, sb.loc(n.ast), "shares_by_server: %s replaces the set of shares of %s although %s may already have "
+                        "one: the shares recorded for it before are lost" % (src(sb, n.ast), K, K), w)
+        for (n, what) in pr.foreign.values():
+            r.violation(sb, sb.loc(n.ast), "shares_by_server: %s - not the pair (%s, %s) of this iteration: the graph gets an "
+                        "edge the share map does not have" % (what, K, V))
+        rets = [n for n in scfg.find(is_return)]
+        for (t, w) in find_path_avoiding(scfg, lambda x: any(x is y for y in rets),
+                                         gate_edge=lambda x, lab: lab == "done" and x.kind == "iter" and x.ast is outer):
+            r.violation(sb, sb.loc(t.ast), "shares_by_server returns before every share of the map was visited", w)
+        # every key has its own set object
+        helpers = {HU_MOD + ":" + q for q in ("bfs", "residual_network", "augmenting_path_for", "_compute_maximum_graph")}
+        total = 0
+        for f in idx.funcs.values():
+            if isinstance(f.node, ast.Lambda):
+                continue
+            if not (f.module.name == HZ_MOD or f.qual in helpers):
+                continue
+            cfg2 = f.cfg()
+            rd2 = C.reaching_defs(cfg2)
+            reach = cfg2.reachable_nodes()
+            for n in cfg2.stmt_nodes():
+                if n.id not in reach:
+                    continue
+                for (name, how, cpath) in escaping_stores2(n):
+                    cr = creators_of(cfg2, rd2, n, name)
+                    if not cr or not on_cycle(cfg2, n):
+                        continue
+                    total += 1
+                    r.site(f, n.ast, "%s -> %s" % (name, how))
+                    if r9_alias(f, r, n, name, how, cr):
+                        shared_slots(f, r, n, name, how, cpath, cr)
+            for (n, cpath, v, muts) in fromkeys_shared(f):
+                r.violation(f, f.loc(n.ast), "shared slot object: dict.fromkeys(.., %s) puts ONE object under every key of %s, and "
+                            "the objects held by %s are changed in place at line %s: a share added for one server shows on "
+                            "all of them" % (src(f, v), cpath, cpath, ",".join(str(m.lineno) for m in muts)))
+        ctx.note("C08.5: %d insertions of locally created containers inside loops examined" % total)
 
 
 def _origin_at_def(fl, use_node, via_name, x):
